@@ -2,61 +2,638 @@
   Proofs: calcSize decides the rules.
 -/
 import Rtcp.Spec.All
+import Rtcp.Proofs.BufLemmas
 
 namespace Rtcp.Proofs
 open Rtcp Rtcp.Impl Rtcp.Spec
 
+theorem decides_ok {n : Nat} {rules : List WriteError} (h : rules = []) : Decides (.ok n) rules where
+  accept_iff := ⟨fun _ => h, fun _ => ⟨n, rfl⟩⟩
+  error_named := by intro e he; cases he
+  noPanic := by simp
+
+theorem decides_err {e : WriteError} {rules : List WriteError} (h : e ∈ rules) : Decides (.err e) rules where
+  accept_iff := ⟨fun ⟨n, hn⟩ => (by cases hn), fun hr => (by subst hr; cases h)⟩
+  error_named := by intro e' he; cases he; exact h
+  noPanic := by simp
+
+/-- the outcome of a `Decides` computation -/
+theorem decides_cases {c : R WriteError Nat} {rules : List WriteError} (h : Decides c rules) :
+    (∃ n, c = .ok n ∧ rules = []) ∨ (∃ e, c = .err e ∧ e ∈ rules) := by
+  cases hc : c with
+  | ok n => exact .inl ⟨n, rfl, h.accept_iff.mp ⟨n, hc⟩⟩
+  | err e => exact .inr ⟨e, rfl, h.error_named e hc⟩
+  | panic => exact absurd hc h.noPanic
+
+/-- the generic shape of the three size loops -/
+def sizesG {β : Type} (c : β → R WriteError Nat) : List β → Nat → R WriteError Nat
+  | [], acc => .ok acc
+  | x :: rest, acc =>
+    match c x with
+    | .ok n => sizesG c rest (acc + n)
+    | .err e => .err e
+    | .panic => .panic
+
+theorem sizesG_cases {β : Type} (c : β → R WriteError Nat) (r : β → List WriteError) (sz : β → Nat)
+    (hd : ∀ x, Decides (c x) (r x)) (hs : ∀ x n, c x = .ok n → n = sz x) (xs : List β) (acc : Nat) :
+    ((xs.map r).flatten = [] ∧ sizesG c xs acc = .ok (acc + (xs.map sz).sum)) ∨
+    (∃ e, sizesG c xs acc = .err e ∧ e ∈ (xs.map r).flatten) := by
+  induction xs generalizing acc with
+  | nil => left; simp [sizesG]
+  | cons x rest ih =>
+    unfold sizesG
+    rcases decides_cases (hd x) with ⟨n, hc, hr⟩ | ⟨e, hc, he⟩
+    · rw [hc]
+      have hn := hs x n hc
+      subst hn
+      rcases ih (acc + sz x) with ⟨h1, h2⟩ | ⟨e, h1, h2⟩
+      · left
+        refine ⟨by simp [hr, h1], ?_⟩
+        simp only [h2, List.map_cons, List.sum_cons]
+        congr 1; omega
+      · right
+        exact ⟨e, h1, by simp only [List.map_cons, List.flatten_cons, List.mem_append]; exact .inr h2⟩
+    · rw [hc]
+      right
+      exact ⟨e, rfl, by simp only [List.map_cons, List.flatten_cons, List.mem_append]; exact .inl he⟩
+
+theorem rbSizes_eq (xs : List ReportBlockBuilder) (acc : Nat) :
+    rbSizes xs acc = sizesG ReportBlockBuilder.calcSize xs acc := by
+  induction xs generalizing acc with
+  | nil => rfl
+  | cons x rest ih => unfold rbSizes sizesG; split <;> simp_all
+
+theorem itemSizes_eq (xs : List SdesItemBuilder) (acc : Nat) :
+    SdesChunkBuilder.itemSizes xs acc = sizesG SdesItemBuilder.calcSize xs acc := by
+  induction xs generalizing acc with
+  | nil => rfl
+  | cons x rest ih => unfold SdesChunkBuilder.itemSizes sizesG; split <;> simp_all
+
+theorem chunkSizes_eq (xs : List SdesChunkBuilder) (acc : Nat) :
+    SdesBuilder.chunkSizes xs acc = sizesG SdesChunkBuilder.calcSize xs acc := by
+  induction xs generalizing acc with
+  | nil => rfl
+  | cons x rest ih => unfold SdesBuilder.chunkSizes sizesG; split <;> simp_all
+
 theorem rb_rules (b : ReportBlockBuilder) : Decides b.calcSize (rbRules b) := by
-  sorry
+  unfold ReportBlockBuilder.calcSize rbRules
+  by_cases h : b.cumulativeLost.toNat > 0xffffff
+  · have h' : (b.cumulativeLost.toNat / 16777216 != 0) = true := by simp; omega
+    rw [if_pos h', if_pos h]
+    exact decides_err (by simp)
+  · have h' : ¬ (b.cumulativeLost.toNat / 16777216 != 0) = true := by simp; omega
+    rw [if_neg h', if_neg h]
+    exact decides_ok rfl
+
+theorem checkPacketLen_decides (n : Nat) : Decides (checkPacketLen n) (sizeRule n) := by
+  unfold checkPacketLen sizeRule maxPacketLen
+  split
+  · exact decides_err (by simp)
+  · exact decides_ok rfl
+
+theorem padRule_cases (p : UInt8) :
+    (p.toNat % 4 = 0 ∧ checkPadding p = .ok () ∧ padRule p = []) ∨
+    (checkPadding p = .err (.invalidPadding p) ∧ padRule p = [.invalidPadding p]) := by
+  unfold padRule
+  rcases checkPadding_cases p with ⟨h, hc⟩ | ⟨h, hc⟩
+  · exact .inl ⟨h, hc, by simp [h]⟩
+  · exact .inr ⟨hc, by simp [h]⟩
+
+theorem rb_size (b : ReportBlockBuilder) (n : Nat) (h : b.calcSize = .ok n) : n = 24 := by
+  unfold ReportBlockBuilder.calcSize at h
+  split at h
+  · cases h
+  · cases h; rfl
+
+theorem rbSizes_cases (xs : List ReportBlockBuilder) :
+    ((xs.map rbRules).flatten = [] ∧ rbSizes xs 0 = .ok (24 * xs.length)) ∨
+    (∃ e, rbSizes xs 0 = .err e ∧ e ∈ (xs.map rbRules).flatten) := by
+  rw [rbSizes_eq]
+  rcases sizesG_cases _ rbRules (fun _ => 24) rb_rules rb_size xs 0 with ⟨h1, h2⟩ | h
+  · left
+    refine ⟨h1, ?_⟩
+    rw [h2]
+    congr 1
+    clear h1 h2
+    induction xs with
+    | nil => rfl
+    | cons x rest ih => simp only [List.map_cons, List.sum_cons, List.length_cons] at ih ⊢; omega
+  · exact .inr h
+
 theorem sr_rules (b : SrBuilder) : Decides b.calcSize (srRules b) := by
-  sorry
+  unfold SrBuilder.calcSize srRules
+  split
+  · exact decides_err (by simp [*])
+  · next h =>
+    rcases padRule_cases b.padding with ⟨_, hc, hp⟩ | ⟨hc, hp⟩ <;> simp only [hc, hp, R.ok_bind, R.err_bind]
+    · rcases rbSizes_cases b.reportBlocks with ⟨h1, h2⟩ | ⟨e, h1, h2⟩
+      · simp only [h2, R.ok_bind, R.pure_eq]
+        exact decides_ok (by simp [h1])
+      · simp only [h1, R.err_bind]
+        exact decides_err (by simp [h2])
+    · exact decides_err (by simp)
+
 theorem rr_rules (b : RrBuilder) : Decides b.calcSize (rrRules b) := by
-  sorry
+  unfold RrBuilder.calcSize rrRules
+  split
+  · exact decides_err (by simp [*])
+  · next h =>
+    rcases padRule_cases b.padding with ⟨_, hc, hp⟩ | ⟨hc, hp⟩ <;> simp only [hc, hp, R.ok_bind, R.err_bind]
+    · rcases rbSizes_cases b.reportBlocks with ⟨h1, h2⟩ | ⟨e, h1, h2⟩
+      · simp only [h2, R.ok_bind, R.pure_eq]
+        exact decides_ok (by simp [h1])
+      · simp only [h1, R.err_bind]
+        exact decides_err (by simp [h2])
+    · exact decides_err (by simp)
+
 theorem bye_rules (b : ByeBuilder) : Decides b.calcSize (byeRules b) := by
-  sorry
+  unfold ByeBuilder.calcSize byeRules
+  split
+  · exact decides_err (by simp [*])
+  · next h =>
+    rcases padRule_cases b.padding with ⟨_, hc, hp⟩ | ⟨hc, hp⟩ <;> simp only [hc, hp, R.ok_bind, R.err_bind]
+    · by_cases he : b.reason = []
+      · simp [he]
+        exact decides_ok rfl
+      · have he' : (!b.reason.isEmpty) = true := by simp [he]
+        simp only [he', if_true]
+        split
+        · exact decides_err (by simp [*])
+        · exact decides_ok (by simp [*])
+    · exact decides_err (by simp)
+
+theorem basic_err {e : WriteError} {basic extra : List WriteError} (h : e ∈ basic) :
+    Decides (.err e) (basic ++ (if basic = [] then extra else [])) :=
+  decides_err (List.mem_append_left _ h)
+
+theorem basic_size {basic : List WriteError} {n : Nat} (h : basic = []) :
+    Decides (checkPacketLen n) (basic ++ (if basic = [] then sizeRule n else [])) := by
+  subst h
+  simpa using checkPacketLen_decides n
+
 theorem app_rules (b : AppBuilder) : Decides b.calcSize (appRules b) := by
-  sorry
+  unfold AppBuilder.calcSize appRules
+  by_cases h1 : b.subtype.toNat > 31
+  · have h1' : b.subtype > 0x1f := by simpa [UInt8.lt_iff_toNat_lt] using h1
+    simp only [if_pos h1']
+    exact basic_err (by simp [h1])
+  · have h1' : ¬ b.subtype > 0x1f := by simpa [UInt8.lt_iff_toNat_lt] using h1
+    simp only [if_neg h1']
+    by_cases h2 : b.name.length > 4 ∨ ∃ c ∈ b.name, c.toNat ≥ 128
+    · have h2' : (b.name.length > 4 || !(b.name.all (· < 128))) = true := by
+        rcases h2 with h2 | ⟨c, hc, h2⟩
+        · simp [h2]
+        · simp only [Bool.or_eq_true, decide_eq_true_eq, Bool.not_eq_true', List.all_eq_false]
+          exact .inr ⟨c, hc, by simp [UInt8.lt_iff_toNat_lt]; omega⟩
+      simp only [if_pos h2']
+      exact basic_err (by simp [h2])
+    · have h2' : ¬ (b.name.length > 4 || !(b.name.all (· < 128))) = true := by
+        intro hh
+        apply h2
+        simp only [Bool.or_eq_true, decide_eq_true_eq, Bool.not_eq_true', List.all_eq_false] at hh
+        rcases hh with hh | ⟨c, hc, hh⟩
+        · exact .inl hh
+        · exact .inr ⟨c, hc, by simp [UInt8.lt_iff_toNat_lt] at hh; omega⟩
+      simp only [if_neg h2']
+      by_cases h3 : b.data.length % 4 ≠ 0
+      · have h3' : (b.data.length % 4 != 0) = true := by simpa using h3
+        simp only [if_pos h3']
+        exact basic_err (by simp [h3])
+      · have h3' : ¬ (b.data.length % 4 != 0) = true := by simpa using h3
+        simp only [if_neg h3']
+        rcases padRule_cases b.padding with ⟨_, hc, hp⟩ | ⟨hc, hp⟩ <;> simp only [hc, hp, R.ok_bind, R.err_bind]
+        · exact basic_size (by simp [h1, h2, h3])
+        · exact basic_err (by simp)
+
 theorem item_rules (b : SdesItemBuilder) : Decides b.calcSize (itemRules b) := by
-  sorry
+  unfold SdesItemBuilder.calcSize itemRules SdesItem.PRIV
+  by_cases ht : b.type = 8
+  · simp only [ht, beq_self_eq_true, if_true]
+    by_cases h1 : b.prefix_.length > 254
+    · rw [if_pos (by omega), if_pos h1]
+      exact decides_err (by simp)
+    · rw [if_neg (by omega), if_neg h1]
+      by_cases h2 : b.prefix_.length + b.value.length > 254
+      · rw [if_pos (by omega), if_pos h2]
+        have : b.prefix_.length % 256 = b.prefix_.length := by omega
+        rw [this]
+        exact decides_err (by simp)
+      · rw [if_neg (by omega), if_neg h2]
+        exact decides_ok rfl
+  · have ht' : (b.type == 8) = false := by simpa using ht
+    simp only [ht', if_neg ht, Bool.false_eq_true, if_false]
+    split
+    · exact decides_err (by simp)
+    · exact decides_ok rfl
+
+theorem item_size (b : SdesItemBuilder) (n : Nat) (h : b.calcSize = .ok n) : n = (itemImage b).length := by
+  unfold SdesItemBuilder.calcSize SdesItem.PRIV at h
+  unfold itemImage
+  by_cases ht : b.type = 8
+  · simp only [ht, beq_self_eq_true, if_true] at h ⊢
+    split at h
+    · cases h
+    · split at h
+      · cases h
+      · cases h; simp; omega
+  · have ht' : (b.type == 8) = false := by simpa using ht
+    simp only [ht', if_neg ht, Bool.false_eq_true, if_false] at h ⊢
+    split at h
+    · cases h
+    · cases h; simp; omega
+
+theorem itemSizes_cases (xs : List SdesItemBuilder) :
+    ((xs.map itemRules).flatten = [] ∧
+      SdesChunkBuilder.itemSizes xs 0 = .ok ((xs.map itemImage).flatten.length)) ∨
+    (∃ e, SdesChunkBuilder.itemSizes xs 0 = .err e ∧ e ∈ (xs.map itemRules).flatten) := by
+  rw [itemSizes_eq]
+  rcases sizesG_cases _ itemRules (fun x => (itemImage x).length) item_rules item_size xs 0 with ⟨h1, h2⟩ | h
+  · left
+    refine ⟨h1, ?_⟩
+    rw [h2, List.length_flatten, List.map_map]
+    simp [Function.comp_def]
+  · exact .inr h
+
+theorem chunkImage_len (c : SdesChunkBuilder) :
+    (chunkImage c).length = pad4 (4 + (c.items.map itemImage).flatten.length + 1) := by
+  unfold chunkImage
+  rw [zfill_length]
+  simp [-List.length_flatten, Nat.add_assoc]
+
 theorem chunk_rules (b : SdesChunkBuilder) : Decides b.calcSize (chunkRules b) := by
-  sorry
+  unfold SdesChunkBuilder.calcSize chunkRules
+  rcases itemSizes_cases b.items with ⟨h1, h2⟩ | ⟨e, h1, h2⟩
+  · simp only [h2, R.ok_bind, R.pure_eq]
+    exact decides_ok h1
+  · simp only [h1, R.err_bind]
+    exact decides_err h2
+
+theorem chunk_size (b : SdesChunkBuilder) (n : Nat) (h : b.calcSize = .ok n) : n = (chunkImage b).length := by
+  unfold SdesChunkBuilder.calcSize at h
+  rcases itemSizes_cases b.items with ⟨h1, h2⟩ | ⟨e, h1, h2⟩
+  · simp only [h2, R.ok_bind, R.pure_eq] at h
+    cases h
+    rw [chunkImage_len]
+  · simp only [h1, R.err_bind] at h
+    cases h
+
+theorem chunkSizes_cases (xs : List SdesChunkBuilder) :
+    ((xs.map chunkRules).flatten = [] ∧
+      SdesBuilder.chunkSizes xs 0 = .ok ((xs.map chunkImage).flatten.length)) ∨
+    (∃ e, SdesBuilder.chunkSizes xs 0 = .err e ∧ e ∈ (xs.map chunkRules).flatten) := by
+  rw [chunkSizes_eq]
+  rcases sizesG_cases _ chunkRules (fun x => (chunkImage x).length) chunk_rules chunk_size xs 0 with ⟨h1, h2⟩ | h
+  · left
+    refine ⟨h1, ?_⟩
+    rw [h2, List.length_flatten, List.map_map]
+    simp [Function.comp_def]
+  · exact .inr h
+
 theorem sdes_rules (b : SdesBuilder) : Decides b.calcSize (sdesRules b) := by
-  sorry
+  unfold SdesBuilder.calcSize sdesRules
+  by_cases h : b.chunks.length > 31
+  · simp only [if_pos h]
+    exact basic_err (by simp)
+  · simp only [if_neg h]
+    rcases padRule_cases b.padding with ⟨_, hc, hp⟩ | ⟨hc, hp⟩ <;> simp only [hc, hp, R.ok_bind, R.err_bind]
+    · rcases chunkSizes_cases b.chunks with ⟨h1, h2⟩ | ⟨e, h1, h2⟩
+      · simp only [h2, R.ok_bind]
+        exact basic_size (by simp [h1])
+      · simp only [h1, R.err_bind]
+        exact basic_err (by simp [h2])
+    · exact basic_err (by simp)
+
 theorem unknown_rules (b : UnknownBuilder) : Decides b.calcSize (unknownRules b) := by
-  sorry
+  unfold UnknownBuilder.calcSize unknownRules
+  by_cases h1 : b.count.toNat > 31
+  · have h1' : b.count > 0x1f := by simpa [UInt8.lt_iff_toNat_lt] using h1
+    simp only [if_pos h1']
+    exact basic_err (by simp [h1])
+  · have h1' : ¬ b.count > 0x1f := by simpa [UInt8.lt_iff_toNat_lt] using h1
+    simp only [if_neg h1']
+    rcases padRule_cases b.padding with ⟨_, hc, hp⟩ | ⟨hc, hp⟩ <;> simp only [hc, hp, R.ok_bind, R.err_bind]
+    · by_cases h3 : b.data.length % 4 ≠ 0
+      · have h3' : (b.data.length % 4 != 0) = true := by simpa using h3
+        simp only [if_pos h3']
+        exact basic_err (by simp [h3])
+      · have h3' : ¬ (b.data.length % 4 != 0) = true := by simpa using h3
+        simp only [if_neg h3']
+        exact basic_size (by simp [h1, h3])
+    · exact basic_err (by simp)
+
 theorem custom_rules (b : CustomBuilder) : Decides b.calcSize (customRules b) := by
-  sorry
+  unfold CustomBuilder.calcSize customRules
+  rcases padRule_cases b.padding with ⟨_, hc, hp⟩ | ⟨hc, hp⟩ <;> simp only [hc, hp, R.ok_bind, R.err_bind]
+  · by_cases h3 : b.body.length % 4 ≠ 0
+    · have h3' : (b.body.length % 4 != 0) = true := by simpa using h3
+      simp only [if_pos h3']
+      exact decides_err (by simp [h3])
+    · have h3' : ¬ (b.body.length % 4 != 0) = true := by simpa using h3
+      simp only [if_neg h3', R.pure_eq]
+      exact decides_ok (by simp [h3])
+  · exact decides_err (by simp)
+
 theorem rpsi_rules (b : RpsiBuilder) : Decides b.calcSize (rpsiRules b) := by
-  sorry
+  unfold RpsiBuilder.calcSize rpsiRules
+  by_cases h1 : b.payloadType.toNat > 127
+  · have h1' : b.payloadType > 127 := by simpa [UInt8.lt_iff_toNat_lt] using h1
+    simp only [if_pos h1']
+    exact decides_err (by simp [h1])
+  · have h1' : ¬ b.payloadType > 127 := by simpa [UInt8.lt_iff_toNat_lt] using h1
+    simp only [if_neg h1']
+    by_cases h2 : b.nativeBitOverrun.toNat > 8 ∨ (b.nativeBitString = [] ∧ b.nativeBitOverrun.toNat > 0)
+    · have h2' : (b.nativeBitOverrun > 8 || (b.nativeBitString.isEmpty && b.nativeBitOverrun > 0)) = true := by
+        simpa [UInt8.lt_iff_toNat_lt] using h2
+      simp only [if_pos h2']
+      exact decides_err (by simp [h2])
+    · have h2' : ¬ (b.nativeBitOverrun > 8 || (b.nativeBitString.isEmpty && b.nativeBitOverrun > 0)) = true := by
+        simpa [UInt8.lt_iff_toNat_lt] using h2
+      simp only [if_neg h2']
+      exact decides_ok (by simp [h1, h2])
+
+/-! ## FCI sizes -/
+
+theorem nack_go_len (rest : List UInt16) : ∀ (base m1 m2 : Nat), base < 65536 →
+    (∀ e ∈ rest, base < e.toNat) → rest.Pairwise (· < ·) →
+    (NackBuilder.go base m1 rest).length = (nackEncodeFrom base m2 (rest.map (·.toNat))).length := by
+  induction rest with
+  | nil => intros; simp [NackBuilder.go, nackEncodeFrom]
+  | cons e rest ih =>
+    intro base m1 m2 hb hlt hp
+    have he : base < e.toNat := hlt e (by simp)
+    have he2 : e.toNat < 65536 := e.toNat_lt
+    have hd : (e.toNat + 65536 - base) % 65536 = e.toNat - base := by omega
+    rw [List.pairwise_cons] at hp
+    have hrest : ∀ x ∈ rest, e.toNat < x.toNat := fun x hx => UInt16.lt_iff_toNat_lt.mp (hp.1 x hx)
+    unfold NackBuilder.go
+    simp only [List.map_cons, nackEncodeFrom, hd]
+    by_cases h16 : e.toNat - base > 16
+    · simp only [if_pos h16, List.length_cons]
+      rw [ih e.toNat 0 0 he2 hrest hp.2]
+    · have hpos : e.toNat - base > 0 := by omega
+      simp only [if_neg h16, if_pos hpos, if_pos he]
+      exact ih base _ _ hb (fun x hx => by have := hrest x hx; omega) hp.2
+
+theorem nack_entries_len (b : NackBuilder) (h : b.rtpSeq.Pairwise (· < ·)) :
+    b.entries.length = (nackEncode (b.rtpSeq.map (·.toNat))).length := by
+  unfold NackBuilder.entries
+  cases hs : b.rtpSeq with
+  | nil => simp [nackEncode]
+  | cons s rest =>
+    rw [hs, List.pairwise_cons] at h
+    simp only [List.map_cons, nackEncode]
+    exact nack_go_len rest s.toNat 0 0 s.toNat_lt (fun x hx => UInt16.lt_iff_toNat_lt.mp (h.1 x hx)) h.2
+
+theorem nackImage_len (ws : List NackWord) : ((ws.map nackWordImage).flatten).length = 4 * ws.length := by
+  induction ws with
+  | nil => rfl
+  | cons w ws ih => simp [nackWordImage, ih]; omega
+
+theorem firImage_len (es : List (UInt32 × UInt8)) :
+    ((es.map firEntryImage).flatten).length = 8 * es.length := by
+  induction es with
+  | nil => rfl
+  | cons e es ih => simp [firEntryImage, ih]; omega
+
+theorem sliImage_len (es : List MacroBlockEntry) :
+    ((es.map sliEntryImage).flatten).length = 4 * es.length := by
+  induction es with
+  | nil => rfl
+  | cons e es ih => simp [sliEntryImage, ih]; omega
+
+theorem rpsiImage_len (b : RpsiBuilder) : (rpsiImage b).length = pad4 (2 + b.nativeBitString.length) := by
+  unfold rpsiImage
+  have hp := le_pad4 (2 + b.nativeBitString.length)
+  cases hl : b.nativeBitString.getLast? with
+  | none =>
+    have : b.nativeBitString = [] := by simpa using hl
+    simp [this, pad4]
+  | some l =>
+    have hne : b.nativeBitString ≠ [] := by
+      intro h; simp [h] at hl
+    have : 0 < b.nativeBitString.length := List.length_pos_iff.mpr hne
+    simp
+    omega
+
+/-- the size an FCI builder announces is the length of its image, a multiple of 4 -/
+theorem fci_size (f : FciB) (hf : match f with | .nack b => b.rtpSeq.Pairwise (· < ·) | _ => True)
+    (n : Nat) (h : f.toFci.w.calcSize = .ok n) : n = (fciImage f).length ∧ n % 4 = 0 := by
+  cases f with
+  | nack b =>
+    simp only [FciB.toFci, NackBuilder.toFci, NackBuilder.calcSize] at h
+    split at h
+    · cases h
+    · cases h
+      simp only [fciImage, nackImage, nackImage_len, nack_entries_len b hf]
+      omega
+  | fir b =>
+    simp only [FciB.toFci, FirBuilder.toFci, FirBuilder.calcSize] at h
+    split at h
+    · cases h
+    · cases h
+      simp only [fciImage, firImage, firImage_len]
+      omega
+  | sli b =>
+    simp only [FciB.toFci, SliBuilder.toFci, SliBuilder.calcSize] at h
+    cases h
+    simp only [fciImage, sliImage, sliImage_len]
+    exact ⟨trivial, by omega⟩
+  | rpsi b =>
+    simp only [FciB.toFci, RpsiBuilder.toFci, RpsiBuilder.calcSize] at h
+    split at h
+    · cases h
+    · split at h
+      · cases h
+      · cases h
+        simp only [fciImage, rpsiImage_len]
+        exact ⟨trivial, pad4_mod _⟩
+  | pli =>
+    simp only [FciB.toFci, pliFci] at h
+    cases h
+    simp [fciImage]
 
 /-- the five built-in FCI builders (the NACK set being the ascending list it always is) -/
 theorem fci_rules (f : FciB) (hf : match f with | .nack b => b.rtpSeq.Pairwise (· < ·) | _ => True) :
     Decides f.toFci.w.calcSize (fciRules f) := by
-  sorry
+  cases f with
+  | nack b =>
+    simp only [FciB.toFci, NackBuilder.toFci, NackBuilder.calcSize, fciRules, nack_entries_len b hf]
+    split
+    · exact decides_err (by simp)
+    · exact decides_ok rfl
+  | fir b =>
+    simp only [FciB.toFci, FirBuilder.toFci, FirBuilder.calcSize, fciRules]
+    split
+    · exact decides_err (by simp)
+    · exact decides_ok rfl
+  | sli b => exact decides_ok rfl
+  | rpsi b => exact rpsi_rules b
+  | pli => exact decides_ok rfl
+
+theorem fb_kind (k : FbKind) (f : FciB) :
+    (FbType.and f.toFci.supports k.ty == FbType.none) = decide (fciKind f ≠ k) := by
+  cases f <;> cases k <;> rfl
 
 /-- every feedback builder × FCI pairing, both kinds: wrong-kind pairings are refused -/
 theorem fb_rules (k : FbKind) (f : FciB) (hf : match f with | .nack b => b.rtpSeq.Pairwise (· < ·) | _ => True)
     (p : UInt8) (s m : UInt32) :
     Decides (FbBuilder.calcSize ⟨k, f.toFci, p, s, m⟩) (fbRules k f p) := by
-  sorry
+  unfold FbBuilder.calcSize fbRules
+  simp only []
+  rcases padRule_cases p with ⟨_, hc, hp⟩ | ⟨hc, hp⟩ <;> simp only [hc, hp, R.ok_bind, R.err_bind]
+  · by_cases hk : fciKind f ≠ k
+    · have hk' : (FbType.and f.toFci.supports k.ty == FbType.none) = true := by
+        rw [fb_kind]; simpa using hk
+      simp only [if_pos hk']
+      exact basic_err (by simp [hk])
+    · have hk' : ¬ (FbType.and f.toFci.supports k.ty == FbType.none) = true := by
+        rw [fb_kind]; simpa using hk
+      simp only [if_neg hk']
+      rcases decides_cases (fci_rules f hf) with ⟨n, hn, hr⟩ | ⟨e, he, hr⟩
+      · simp only [hn, R.ok_bind]
+        obtain ⟨h1, h2⟩ := fci_size f hf n hn
+        rw [pad4_of_mod h2, h1]
+        exact basic_size (by simp [hk, hr])
+      · simp only [he, R.err_bind]
+        exact basic_err (by simp [hr])
+  · exact basic_err (by simp)
 
 /-! whole-packet sizes are multiples of 4 (C06) -/
 
+theorem checkPacketLen_ok {m n : Nat} (h : checkPacketLen m = .ok n) : n = m ∧ n ≤ 262144 := by
+  unfold checkPacketLen maxPacketLen at h
+  split at h
+  · cases h
+  · cases h; exact ⟨rfl, by omega⟩
+
+theorem sr_size (b : SrBuilder) (n : Nat) (h : b.calcSize = .ok n) :
+    b.reportBlocks.length ≤ 31 ∧ b.padding.toNat % 4 = 0 ∧ n = 28 + 24 * b.reportBlocks.length + b.padding.toNat := by
+  unfold SrBuilder.calcSize at h
+  split at h
+  · cases h
+  · rcases padRule_cases b.padding with ⟨hm, hc, _⟩ | ⟨hc, _⟩ <;> simp only [hc, R.ok_bind, R.err_bind] at h
+    · rcases rbSizes_cases b.reportBlocks with ⟨_, h2⟩ | ⟨e, h1, _⟩
+      · simp only [h2, R.ok_bind, R.pure_eq] at h
+        cases h
+        exact ⟨by omega, hm, rfl⟩
+      · simp only [h1, R.err_bind] at h
+        cases h
+    · cases h
+
+theorem rr_size (b : RrBuilder) (n : Nat) (h : b.calcSize = .ok n) :
+    b.reportBlocks.length ≤ 31 ∧ b.padding.toNat % 4 = 0 ∧ n = 8 + 24 * b.reportBlocks.length + b.padding.toNat := by
+  unfold RrBuilder.calcSize at h
+  split at h
+  · cases h
+  · rcases padRule_cases b.padding with ⟨hm, hc, _⟩ | ⟨hc, _⟩ <;> simp only [hc, R.ok_bind, R.err_bind] at h
+    · rcases rbSizes_cases b.reportBlocks with ⟨_, h2⟩ | ⟨e, h1, _⟩
+      · simp only [h2, R.ok_bind, R.pure_eq] at h
+        cases h
+        exact ⟨by omega, hm, rfl⟩
+      · simp only [h1, R.err_bind] at h
+        cases h
+    · cases h
+
+theorem bye_size (b : ByeBuilder) (n : Nat) (h : b.calcSize = .ok n) : n % 4 = 0 ∧ n ≤ 262144 := by
+  unfold ByeBuilder.calcSize at h
+  split at h
+  · cases h
+  · rcases padRule_cases b.padding with ⟨hm, hc, _⟩ | ⟨hc, _⟩ <;> simp only [hc, R.ok_bind, R.err_bind] at h
+    · have hp := b.padding.toNat_lt
+      split at h
+      · split at h
+        · cases h
+        · simp only [R.pure_eq] at h
+          cases h
+          refine ⟨pad4_mod _, ?_⟩
+          have := pad4_lt (4 + 4 * b.sources.length + b.padding.toNat + 1 + b.reason.length)
+          omega
+      · simp only [R.pure_eq] at h
+        cases h
+        omega
+    · cases h
+
+theorem app_size (b : AppBuilder) (n : Nat) (h : b.calcSize = .ok n) : n % 4 = 0 ∧ n ≤ 262144 := by
+  unfold AppBuilder.calcSize at h
+  split at h
+  · cases h
+  · split at h
+    · cases h
+    · split at h
+      · cases h
+      · next hd =>
+        rcases padRule_cases b.padding with ⟨hm, hc, _⟩ | ⟨hc, _⟩ <;> simp only [hc, R.ok_bind, R.err_bind] at h
+        · obtain ⟨h1, h2⟩ := checkPacketLen_ok h
+          simp at hd
+          omega
+        · cases h
+
+theorem sdes_size (b : SdesBuilder) (n : Nat) (h : b.calcSize = .ok n) : n % 4 = 0 ∧ n ≤ 262144 := by
+  unfold SdesBuilder.calcSize at h
+  split at h
+  · cases h
+  · rcases padRule_cases b.padding with ⟨hm, hc, _⟩ | ⟨hc, _⟩ <;> simp only [hc, R.ok_bind, R.err_bind] at h
+    · rcases chunkSizes_cases b.chunks with ⟨_, h2⟩ | ⟨e, h1, _⟩
+      · simp only [h2, R.ok_bind] at h
+        obtain ⟨h1, h2⟩ := checkPacketLen_ok h
+        refine ⟨?_, h2⟩
+        have hm4 : ∀ cs : List SdesChunkBuilder, ((cs.map chunkImage).flatten).length % 4 = 0 := by
+          intro cs
+          induction cs with
+          | nil => rfl
+          | cons c cs ih =>
+            have := pad4_mod (4 + (c.items.map itemImage).flatten.length + 1)
+            simp only [List.map_cons, List.flatten_cons, List.length_append, chunkImage_len]
+            omega
+        have := hm4 b.chunks
+        omega
+      · simp only [h1, R.err_bind] at h
+        cases h
+    · cases h
+
+theorem unknown_size (b : UnknownBuilder) (n : Nat) (h : b.calcSize = .ok n) : n % 4 = 0 ∧ n ≤ 262144 := by
+  unfold UnknownBuilder.calcSize at h
+  split at h
+  · cases h
+  · rcases padRule_cases b.padding with ⟨hm, hc, _⟩ | ⟨hc, _⟩ <;> simp only [hc, R.ok_bind, R.err_bind] at h
+    · split at h
+      · cases h
+      · next hd =>
+        obtain ⟨h1, h2⟩ := checkPacketLen_ok h
+        simp at hd
+        omega
+    · cases h
+
+theorem fb_size (b : FbBuilder) (n : Nat) (h : b.calcSize = .ok n) : n % 4 = 0 ∧ n ≤ 262144 := by
+  unfold FbBuilder.calcSize at h
+  rcases padRule_cases b.padding with ⟨hm, hc, _⟩ | ⟨hc, _⟩ <;> simp only [hc, R.ok_bind, R.err_bind] at h
+  · split at h
+    · cases h
+    · cases hf : b.fci.w.calcSize with
+      | ok l =>
+        simp only [hf, R.ok_bind] at h
+        obtain ⟨h1, h2⟩ := checkPacketLen_ok h
+        have := pad4_mod l
+        omega
+      | err e => simp only [hf, R.err_bind] at h; cases h
+      | panic => simp only [hf, R.panic_bind] at h; cases h
+  · cases h
+
 theorem sr_size_mod4 (b : SrBuilder) (n : Nat) (h : b.calcSize = .ok n) : n % 4 = 0 := by
-  sorry
+  have := sr_size b n h; omega
 theorem rr_size_mod4 (b : RrBuilder) (n : Nat) (h : b.calcSize = .ok n) : n % 4 = 0 := by
-  sorry
-theorem bye_size_mod4 (b : ByeBuilder) (n : Nat) (h : b.calcSize = .ok n) : n % 4 = 0 := by
-  sorry
-theorem app_size_mod4 (b : AppBuilder) (n : Nat) (h : b.calcSize = .ok n) : n % 4 = 0 := by
-  sorry
-theorem sdes_size_mod4 (b : SdesBuilder) (n : Nat) (h : b.calcSize = .ok n) : n % 4 = 0 := by
-  sorry
-theorem unknown_size_mod4 (b : UnknownBuilder) (n : Nat) (h : b.calcSize = .ok n) : n % 4 = 0 := by
-  sorry
+  have := rr_size b n h; omega
+theorem bye_size_mod4 (b : ByeBuilder) (n : Nat) (h : b.calcSize = .ok n) : n % 4 = 0 :=
+  (bye_size b n h).1
+theorem app_size_mod4 (b : AppBuilder) (n : Nat) (h : b.calcSize = .ok n) : n % 4 = 0 :=
+  (app_size b n h).1
+theorem sdes_size_mod4 (b : SdesBuilder) (n : Nat) (h : b.calcSize = .ok n) : n % 4 = 0 :=
+  (sdes_size b n h).1
+theorem unknown_size_mod4 (b : UnknownBuilder) (n : Nat) (h : b.calcSize = .ok n) : n % 4 = 0 :=
+  (unknown_size b n h).1
 theorem fb_size_mod4 (k : FbKind) (f : FciB) (p : UInt8) (s m : UInt32) (n : Nat)
-    (h : FbBuilder.calcSize ⟨k, f.toFci, p, s, m⟩ = .ok n) : n % 4 = 0 := by
-  sorry
+    (h : FbBuilder.calcSize ⟨k, f.toFci, p, s, m⟩ = .ok n) : n % 4 = 0 :=
+  (fb_size _ n h).1
 
 /-- every accepted whole packet fits the 16-bit length field: at most 65536 words -/
 theorem sizes_bounded :
@@ -67,6 +644,15 @@ theorem sizes_bounded :
     (∀ (b : SdesBuilder) n, b.calcSize = .ok n → n ≤ 262144) ∧
     (∀ (b : UnknownBuilder) n, b.calcSize = .ok n → n ≤ 262144) ∧
     (∀ (b : FbBuilder) n, b.calcSize = .ok n → n ≤ 262144) := by
-  sorry
+  refine ⟨?_, ?_, fun b n h => (bye_size b n h).2, fun b n h => (app_size b n h).2,
+    fun b n h => (sdes_size b n h).2, fun b n h => (unknown_size b n h).2, fun b n h => (fb_size b n h).2⟩
+  · intro b n h
+    have := sr_size b n h
+    have := b.padding.toNat_lt
+    omega
+  · intro b n h
+    have := rr_size b n h
+    have := b.padding.toNat_lt
+    omega
 
 end Rtcp.Proofs
